@@ -25,6 +25,14 @@ def post_solve_ops(rng, plan, k=4):
         n[0] += 1
         return "post_%s%d" % (b, n[0])
 
+    if rng.random() < 0.5:
+        # the session goes on declaring things after the solve (new leaves), e.g. to prepare the next iterate
+        q = nm("q")
+        ops.append({"op": "newpoint", "out": q})
+        fn = next((o["out"] for o in plan["ops"] if o["op"] == "func"), None)
+        if fn is not None and pts and rng.random() < 0.7:
+            ops.append({"op": "oracle", "out": [nm("g"), nm("v")], "f": fn, "x": rng.choice(pts)})
+
     for _ in range(k):
         c = rng.randrange(5)
         if c == 0 and len(pts) >= 2:
